@@ -236,7 +236,9 @@ impl C04 {
     }
 
     fn fresh_session(&mut self) {
-        self.kit.session = Arc::new(lance::session::Session::default());
+        // new caches, same object store registry (the memory:// store lives in the registry)
+        let reg = self.kit.session.store_registry();
+        self.kit.session = Arc::new(lance::session::Session::new(64 << 20, 64 << 20, reg));
     }
 
     fn observe(&self, ds: &Dataset) -> Result<Obs, KitError> {
@@ -665,7 +667,7 @@ impl Prop for C04 {
                 }
             };
             let tail = format!("v={} frags={} scan={}", obs.version, obs.frags, show_kvs(&obs.scan));
-            let mut fail = |key: &str, what: String, res: &mut CaseResult| {
+            let fail = |key: &str, what: String, res: &mut CaseResult| {
                 res.failures.push(OracleFailure { what: format!("`{line}` (built at v{read_version}, latest v{seen_version}): {what}"), key: Some(key.into()), line: ln });
                 res.tags.push(format!("oracle:{key}"));
             };
@@ -703,8 +705,11 @@ impl Prop for C04 {
                     if let (Some(before), Some(at_read)) = (&before, &at_read) {
                         let stale_eff = effect(at_read, &act);
                         let fresh_eff = effect(before, &act);
-                        let since: BTreeSet<i64> =
-                            killed_at.range(read_version + 1..=seen_version).flat_map(|(_, s)| s.iter().copied()).collect();
+                        let since: BTreeSet<i64> = if read_version < seen_version {
+                            killed_at.range(read_version + 1..=seen_version).flat_map(|(_, s)| s.iter().copied()).collect()
+                        } else {
+                            BTreeSet::new()
+                        };
                         let overlap: Vec<i64> = stale_eff.killed.intersection(&since).copied().collect();
                         let want_stale = apply(&stale_eff, before);
                         let want_fresh = apply(&fresh_eff, before);
